@@ -130,7 +130,8 @@ def decorate(terms, rng):
         elif mode == 1:
             out += [t * 3.0, t * -3.0]                  # exact cancellation
         elif mode == 2:
-            out.append(t * -0.999999)                   # partial cancellation: tiny residual factor
+            # partial cancellation: the residual factor is small relative to the cancelling pair but far above rounding
+            out.append(t * -(1.0 - [1e-6, 1e-9, 1e-11][int(rng.integers(3))]))
     rng.shuffle(out)
     return out
 
@@ -235,7 +236,9 @@ def worker(case, led):
             d = S.dense(mpo)
             denses[algo] = d
             err = np.abs(d - ref).max()
-            led.check(err <= 1e-9 * scale, "post:Mpo.__init__:dense_equals_sum_of_products_minus_offset", "Mpo.__init__",
+            # graph algorithms only move factors (rounding ~ eps * sum|c_k|); QR truncates at its documented relative tolerance 1e-10
+            tol_dense = (1e-9 if algo == "qr" else 1e-12) * scale
+            led.check(err <= tol_dense, "post:Mpo.__init__:dense_equals_sum_of_products_minus_offset", "Mpo.__init__",
                       f"max |dense(MPO) - sum_k c_k (x) local matrices + offset| = {err:.3e} (scale {scale:.2e})", key + ("dense",), fields, dict(rep, algo=algo))
             v = S.qnv_violations(mpo)
             led.check(not v and np.all(np.asarray(mpo.qntot).reshape(-1) == np.asarray(charge)), "post:Mpo.__init__:qn_valid_and_charge", "Mpo.__init__",
